@@ -277,7 +277,18 @@ struct PsoVisitor {
     /// `runx`: also report the loop condition's side effects at every pass boundary and the weight
     /// every velocity update reads
     ext: bool,
+    /// `runn`: the PSO loop is not the only loop of the configuration. `pso_depth` is the nesting depth of
+    /// the PSO loop among the loops being executed (1 = outermost); passes of enclosing loops open a new
+    /// segment, passes of loops nested in the PSO loop body are counted (`ipass`), and the number of completed
+    /// passes of the PSO loop is counted by the harness itself (`pass_no`) instead of trusting `Iterations`.
+    nest: bool,
+    pso_depth: usize,
+    depth: usize,
+    pass_no: u32,
+    events: usize,
 }
+/// A loop that never ends is an outcome (`panic`), not a hang.
+const MAX_LOOP_EVENTS: usize = 60_000;
 /// `(tag iterations evaluations Progress<Iterations> Progress<Evaluations>)`; a missing state is `x`.
 fn loop_obs<Q: HProblem>(tag: &str, state: &State<Q>) -> String {
     let it = state.try_borrow::<Iterations>().map(|i| i.0.to_string()).unwrap_or("x".into());
@@ -306,6 +317,23 @@ impl Visitor for PsoVisitor {
         let lens = |tag: &str| list(["len".into(), tag.into(), pops.get_current().map(|c| c.len()).unwrap_or(0).to_string(),
             vs.as_ref().map(|v| v.len().to_string()).unwrap_or("x".into()), pb.as_ref().map(|v| v.len().to_string()).unwrap_or("x".into())]);
         if name == "mahf::verif::LoopPass" {
+            if self.nest {
+                self.events += 1;
+                if self.events > MAX_LOOP_EVENTS { panic!("runaway loop"); }
+                let d = if phase == Phase::Before { self.depth += 1; self.depth } else { let d = self.depth; self.depth = d.saturating_sub(1); d };
+                if d < self.pso_depth {
+                    // a pass of an enclosing loop: a new PSO starts inside it
+                    if phase == Phase::Before { self.steps.push("(seg)".into()); self.pass_no = 0; }
+                    return;
+                }
+                if d > self.pso_depth {
+                    if phase == Phase::Before {
+                        let it = state.try_borrow::<Iterations>().map(|i| i.0.to_string()).unwrap_or("x".into());
+                        self.steps.push(list(["ipass".into(), (d - self.pso_depth).to_string(), it]));
+                    }
+                    return;
+                }
+            }
             if self.ext && phase == Phase::Before { self.steps.push(loop_obs("passx", state)); }
             // "the global best equals the best personal best" — at the pass boundaries, so that the order of the
             // two best updates inside `ParticleSwarmUpdate` / `ParticleSwarmInit` does not matter
@@ -318,8 +346,12 @@ impl Visitor for PsoVisitor {
                 self.steps.push(list(["inv".into(), g, vec_s(&pbo), b(member)]));
             }
             self.steps.push(lens(if phase == Phase::Before { "pass" } else { "pass-end" }));
+            if self.nest && phase == Phase::After { self.pass_no += 1; }
             return;
         }
+        // the refinement components of `runn` are not swarm components
+        if self.nest && self.depth > self.pso_depth { return; }
+        let own_it = if self.nest { self.pass_no } else { state.try_borrow::<Iterations>().map(|i| i.0).unwrap_or(u32::MAX) };
         let short = if name.contains("mapping::common::Linear") { "inertia" }
             else if name.contains("ParticleVelocitiesUpdate") { "vel" }
             else if name.contains("ParticleVelocitiesInit") { "velinit" }
@@ -336,7 +368,7 @@ impl Visitor for PsoVisitor {
                     tagged("xs", pops.current().iter().map(&p_s)), tagged("vs", vs.iter().map(|v| vec_s(v))),
                     tagged("pbest", pb.iter().map(&p_s)), match &***gb { Some(g) => tagged("gbest", [p_s(g)]), None => "(gbest none)".into() });
                 self.vel_before = Some((pre, used));
-                if self.ext { self.steps.push(list(["wuse".into(), state.iterations().to_string(), fx(w)])); }
+                if self.ext { self.steps.push(list(["wuse".into(), own_it.to_string(), fx(w)])); }
             }
             ("vel", Phase::After) => {
                 if let (Some((pre, used0)), Some(vs)) = (self.vel_before.take(), vs.as_ref()) {
@@ -353,7 +385,7 @@ impl Visitor for PsoVisitor {
             }
             ("inertia", Phase::After) => {
                 let prog = state.try_borrow::<Progress<ValueOf<Iterations>>>().map(|p| p.0).unwrap_or(f64::NAN);
-                self.steps.push(list(["inertia".into(), state.iterations().to_string(), self.n_iter.to_string(), fx(prog), fx(state.get_value::<InertiaWeight<Pvu>>())]));
+                self.steps.push(list(["inertia".into(), own_it.to_string(), self.n_iter.to_string(), fx(prog), fx(state.get_value::<InertiaWeight<Pvu>>())]));
             }
             ("velinit", Phase::After) => self.steps.push(lens("velinit")),
             ("pbinit", Phase::After) => {
@@ -406,7 +438,7 @@ fn run_run(args: &[Sx]) -> (String, Vec<(String, String)>) {
     let vis = PsoVisitor {
         steps: vec![], vel_cases: vec![], swapped: false, fb: seed, script: None, id: 0, shadow: Sm::new(seed), shadow_pos: 0,
         c1: f1(args, "c1"), c2: f1(args, "c2"), vmax: f1(args, "vmax"), w0: f1(args, "start"), n_iter: iters,
-        vel_before: None, pb_before: None, hist: vec![], ext: false,
+        vel_before: None, pb_before: None, hist: vec![], ext: false, nest: false, pso_depth: 1, depth: 0, pass_no: 0, events: 0,
     };
     match run_template("real_pso", v, i, iters, seed, EvalKind::Sequential, vis) {
         Ok((vis, outcome)) => (list([outcome.tag().to_string(), tagged("steps", vis.steps)]), vis.vel_cases),
@@ -448,6 +480,35 @@ fn first_lti(sx: &Sx) -> Option<u32> {
 ///   `update_best_individual`, then `ClearPopulation` when `clear 1`), so that `common::BestIndividual`
 ///   holds a solution no particle was ever evaluated at.
 fn run_custom(args: &[Sx], ext: bool) -> (String, Vec<(String, String)>) {
+    run_custom_n(args, ext, false)
+}
+
+/// The real component for `(sat) | (nop) | (eval) | (scope K*) | (loop C K*) | (if C K*)`.
+fn build_comp(sx: &Sx) -> Box<dyn Component<Sphere>> {
+    use mahf::components::{boundary, evaluation::PopulationEvaluator, Branch, Loop, Scope};
+    let (h, a) = sx.head().expect("component");
+    match h {
+        // `Saturation` borrows the solutions mutably, i.e. resets the evaluation: only before the evaluation
+        "sat" => boundary::Saturation::new(),
+        "nop" => mahf::components::utils::Noop::new(),
+        "eval" => PopulationEvaluator::new(),
+        "scope" => Scope::new(a.iter().map(build_comp).collect()),
+        "loop" => Loop::new(build_cond(&a[0]), a[1..].iter().map(build_comp).collect::<Vec<_>>()),
+        "if" => Branch::new(build_cond(&a[0]), a[1..].iter().map(build_comp).collect::<Vec<_>>()),
+        _ => panic!("unknown component {h}"),
+    }
+}
+
+/// `(runn (np n) (dim d) (seed s) (start x) (end x) (c1 x) (c2 x) (vmax x) (inertia 0|1) (wrap m) (cond C)
+///        (pre K*) (con K*) (ine K*) (upd K*))`:
+/// the layout of `real_pso`, built from the public `pso::pso` template, whose loop body contains FURTHER
+/// components — scoped refinement loops / branches bounded by conditions of the same kind as the PSO loop's
+/// (memetic PSO; `heuristics::ils` nests its local search the same way) — in four places: before the velocity
+/// update (`particle_update` a block), after the boundary repair (`constraints` a block), directly before the
+/// inertia-weight update (`inertia_weight_update` a block), after the swarm update (`state_update` a block).
+/// With `wrap m` > 0 the whole heuristic (sampling, evaluation, PSO) runs inside the `Scope` of an enclosing
+/// `while iterations < m` loop (restarts): the PSO loop is then itself a nested loop.
+fn run_custom_n(args: &[Sx], ext: bool, nest: bool) -> (String, Vec<(String, String)>) {
     use mahf::components::{boundary, initialization, utils::populations::ClearPopulation};
     use mahf::conditions::LessThanN;
     use mahf::heuristics::pso;
@@ -461,7 +522,42 @@ fn run_custom(args: &[Sx], ext: bool) -> (String, Vec<(String, String)>) {
     let problem = Sphere::new(dim, -3.0, 4.0, 0.5);
     let (start, end, c1, c2, vmax) = (f1(args, "start"), f1(args, "end"), f1(args, "c1"), f1(args, "c2"), f1(args, "vmax"));
     let iters;
-    let built: mahf::ExecResult<Configuration<Sphere>> = if !ext {
+    let wrap = if nest { field(args, "wrap")[0].nat().unwrap() as u32 } else { 0 };
+    let built: mahf::ExecResult<Configuration<Sphere>> = if nest {
+        use mahf::components::Block;
+        let cond = &field(args, "cond")[0];
+        iters = first_lti(cond).unwrap_or(0);
+        let inertia = field(args, "inertia")[0].nat().unwrap() == 1;
+        let slot = |name: &str| -> Vec<Box<dyn Component<Sphere>>> { field(args, name).iter().map(build_comp).collect() };
+        (|| {
+            let mut particle_update = slot("pre");
+            particle_update.push(Pvu::new(start, c1, c2, vmax)?);
+            let mut constraints = vec![boundary::Saturation::new()];
+            constraints.extend(slot("con"));
+            let inertia_weight_update = if inertia {
+                let mut v = slot("ine");
+                v.push(Linear::new(start, end, ValueOf::<Progress<ValueOf<Iterations>>>::new(), ValueOf::<InertiaWeight<Pvu>>::new()));
+                Some(Block::new(v))
+            } else { None };
+            let mut state_update = vec![ParticleSwarmUpdate::new()];
+            state_update.extend(slot("upd"));
+            let heuristic = |b: mahf::configuration::ConfigurationBuilder<Sphere>| -> mahf::ExecResult<mahf::configuration::ConfigurationBuilder<Sphere>> {
+                Ok(b.do_(initialization::RandomSpread::new(np))
+                    .evaluate()
+                    .update_best_individual()
+                    .do_(pso::pso::<Sphere, Global>(pso::Parameters {
+                        particle_init: ParticleSwarmInit::new(vmax)?,
+                        particle_update: Block::new(particle_update),
+                        constraints: Block::new(constraints),
+                        inertia_weight_update,
+                        state_update: Block::new(state_update),
+                    }, build_cond(cond))))
+            };
+            if wrap == 0 { return Ok(heuristic(Configuration::builder())?.build()); }
+            let inner = heuristic(Configuration::builder())?.build().into_inner();
+            Ok(Configuration::builder().while_(LessThanN::iterations(wrap), |b| b.scope_(|b| b.do_(inner))).build())
+        })()
+    } else if !ext {
         iters = field(args, "iters")[0].nat().unwrap() as u32;
         pso::real_pso::<Sphere>(pso::RealProblemParameters {
             num_particles: np, start_weight: start, end_weight: end, c_one: c1, c_two: c2, v_max: vmax }, LessThanN::iterations(iters))
@@ -502,7 +598,7 @@ fn run_custom(args: &[Sx], ext: bool) -> (String, Vec<(String, String)>) {
     let vis = Arc::new(Mutex::new(PsoVisitor {
         steps: vec![], vel_cases: vec![], swapped: false, fb: seed, script: None, id: 0, shadow: Sm::new(seed), shadow_pos: 0,
         c1, c2, vmax, w0: start, n_iter: iters,
-        vel_before: None, pb_before: None, hist: vec![], ext,
+        vel_before: None, pb_before: None, hist: vec![], ext, nest, pso_depth: if wrap > 0 { 2 } else { 1 }, depth: 0, pass_no: 0, events: 0,
     }));
     let (v2, p2) = (vis.clone(), problem.clone());
     let r = catch(|| cfg.optimize_with(&problem, |state: &mut State<Sphere>| {
@@ -514,7 +610,7 @@ fn run_custom(args: &[Sx], ext: bool) -> (String, Vec<(String, String)>) {
         Ok(())
     }));
     let tag = match &r { None => "panic", Some(Err(_)) => "err", Some(Ok(_)) => "ok" };
-    let exit = match &r { Some(Ok(state)) if ext => Some(loop_obs("exitx", state)), _ => None };
+    let exit = match &r { Some(Ok(state)) if ext && wrap == 0 => Some(loop_obs("exitx", state)), _ => None };
     drop(r);
     let mut g = vis.lock().unwrap_or_else(|e| e.into_inner());
     if g.swapped { unregister(g.id); }
@@ -536,6 +632,7 @@ fn run_case(input: &Sx) -> String {
         "run" => run_run(args).0,
         "runc" => run_custom(args, false).0,
         "runx" => run_custom(args, true).0,
+        "runn" => run_custom_n(args, true, true).0,
         _ => panic!("unknown case kind {kind}"),
     }
 }
@@ -608,6 +705,49 @@ fn rand_formula(g: &mut Gen, n: u64, depth: u32) -> String {
     }
 }
 
+/// A component that may stand inside a `Scope` in the body of the PSO loop (`n` = the PSO loop's iteration bound).
+/// Every loop ends: an iteration bound alone or in a conjunction ends it because the loop's own `Iterations` grow; a
+/// loop whose condition can stay true on the evaluation budget alone evaluates the population in its body first
+/// (the evaluator's `Evaluations`, shadowed in the scope, grow by the population size).
+fn rand_inner(g: &mut Gen, n: u64, depth: u32) -> String {
+    match g.rng.below(if depth == 0 { 2 } else { 7 }) {
+        0 => "(sat)".into(),
+        1 => "(eval)".into(),
+        2 | 3 => {
+            let k = g.rng.range(0, 4);
+            let e = g.rng.range(1, 10);
+            let (c, need_eval) = match g.rng.below(7) {
+                0 | 1 => (format!("(lti {k})"), false),
+                // the same bound as the PSO loop's
+                2 => (format!("(lti {})", n.min(4)), false),
+                3 => (format!("(and (lti {k}) (lte {e}))"), false),
+                4 => (format!("(and (lte {e}) (not (not (lti {k}))))"), false),
+                5 => (format!("(lte {e})"), true),
+                _ => (format!("(or (lti {k}) (lte {e}))"), true),
+            };
+            let mut body: Vec<String> = vec![];
+            if need_eval { body.push("(eval)".into()); }
+            for _ in 0..g.rng.range(if need_eval { 0 } else { 1 }, 2) { body.push(rand_inner(g, n, depth - 1)); }
+            format!("(loop {c} {})", body.join(" "))
+        }
+        4 | 5 => {
+            // bounds relative to the PSO loop's, so that the branch flips during the run
+            let c = match g.rng.below(4) {
+                0 => format!("(lti {})", n / 2),
+                1 => format!("(lti {})", n + 3),
+                2 => format!("(lte {})", g.rng.range(5, 60)),
+                _ => format!("(or (lti {}) (lte {}))", n / 3, g.rng.range(5, 30)),
+            };
+            format!("(if {c} {})", rand_inner(g, n, depth - 1))
+        }
+        _ => rand_scope(g, n, depth - 1),
+    }
+}
+fn rand_scope(g: &mut Gen, n: u64, depth: u32) -> String {
+    let k = g.rng.range(1, 2);
+    format!("(scope {})", (0..k).map(|_| rand_inner(g, n, depth)).collect::<Vec<_>>().join(" "))
+}
+
 fn vel_case(g: &mut Gen, malformed: u64, special: u64) -> String {
     let n = g.rng.range(1, 10) as usize;
     let dim = g.rng.range(1, 5) as usize;
@@ -642,7 +782,7 @@ fn vel_case(g: &mut Gen, malformed: u64, special: u64) -> String {
 }
 
 fn main() {
-    quiet_panics();
+    if std::env::var("C18_LOUD").is_err() { quiet_panics(); }
     let a = args();
     let mut out = Out::new();
     if let Some(r) = a.replay {
@@ -822,6 +962,57 @@ fn main() {
             out.case("runx", &input, &output);
             for (vi, vo) in vel_cases {
                 out.case("runx-vel", &vi, &vo);
+            }
+        }
+    }
+    // PSO loops whose body contains further scoped loops / conditions (memetic PSO), PSO loops inside an enclosing loop
+    let demo = "(scope (loop (lti 3) (sat)))";
+    // cond, np, dim, inertia, wrap, pre, con, ine, upd, parameter point
+    let mut runn: Vec<(String, u64, u64, u64, u64, String, String, String, String, usize)> = [
+        ("(lti 10)", 6, 3, 1, 0, "", demo, "", "", 0),
+        ("(lti 8)", 4, 2, 1, 0, demo, "", "", "", 2),
+        ("(lti 8)", 4, 2, 1, 0, "", "", "(scope (if (lti 4) (nop)))", "", 0),
+        ("(lti 9)", 3, 2, 1, 0, "", "(scope (loop (lte 9) (eval) (nop)))", "", "(scope (loop (lti 3) (nop)))", 1),
+        ("(or (lte 40) (lti 7))", 3, 2, 1, 0, "", "(scope (loop (and (lti 2) (lte 1000)) (scope (loop (lti 2) (sat)))))", "", "", 0),
+        ("(lti 6)", 3, 2, 1, 3, "", "", "", "", 0),
+        ("(lti 6)", 3, 2, 1, 2, "", demo, "", "", 2),
+        ("(lti 7)", 4, 2, 0, 0, "", demo, "", "", 0),
+        ("(and (lte 500) (lti 6))", 2, 1, 1, 2, "(scope (if (lti 3) (scope (loop (lti 2) (eval)))))", "", "(scope (loop (lti 3) (nop)))", "", 1),
+        // UNSCOPED branches in the loop body (site `runn-unscoped`): a condition on an iteration bound writes the
+        // `Progress<ValueOf<Iterations>>` of the PSO loop itself (KNOWN FINDING when the bounds differ) ...
+        ("(lti 8)", 3, 2, 1, 0, "", "(if (lti 4) (sat))", "", "", 0),
+        ("(lti 6)", 4, 2, 1, 0, "(if (lti 9) (nop))", "", "", "", 2),
+        ("(or (lte 30) (lti 10))", 2, 1, 1, 0, "", "", "(if (not (lti 5)) (nop))", "", 0),
+        // ... one with the loop's own bound or on the evaluation budget does not disturb it, nor does one behind the update
+        ("(lti 7)", 3, 2, 1, 0, "", "(if (lti 7) (sat))", "", "", 0),
+        ("(lti 7)", 3, 2, 1, 0, "", "(if (lte 20) (sat))", "", "(if (lti 3) (nop))", 1),
+    ].iter().map(|c| (c.0.to_string(), c.1, c.2, c.3, c.4, c.5.to_string(), c.6.to_string(), c.7.to_string(), c.8.to_string(), c.9)).collect();
+    for k in 0..(if a.thorough { 60 } else { 8 }) {
+        let n = g.rng.range(3, 12);
+        let cond = if k % 3 == 0 { rand_formula(&mut g, n, 2) } else { format!("(lti {n})") };
+        let inertia = if k % 6 == 5 { 0 } else { 1 };
+        let wrap = if k % 4 == 3 { g.rng.range(2, 3) } else { 0 };
+        let slot = |g: &mut Gen, on: bool| if on { let m = g.rng.range(1, 2); (0..m).map(|_| rand_scope(g, n, 2)).collect::<Vec<_>>().join(" ") } else { String::new() };
+        let pick = g.rng.below(8);
+        let pre = slot(&mut g, pick == 0 || pick == 4);
+        let con = slot(&mut g, pick == 1 || pick == 4 || pick == 5 || pick == 7);
+        // behind the evaluation `Saturation` would reset the objective values the best updates read
+        let ine = slot(&mut g, inertia == 1 && (pick == 2 || pick == 5 || pick == 6)).replace("(sat)", "(nop)");
+        let upd = slot(&mut g, pick == 3 || pick == 6 || pick == 7).replace("(sat)", "(nop)");
+        runn.push((cond, g.rng.range(1, 5), g.rng.range(1, 3), inertia, wrap, pre, con, ine, upd, g.rng.below(3) as usize));
+    }
+    for (k, c) in runn.iter().enumerate() {
+        for s in 0..(if a.thorough && k < 14 { 3 } else { 1 }) {
+            let v = c.9;
+            let input = format!("(runn (np {}) (dim {}) (seed {}) (start {}) (end {}) (c1 {}) (c2 {}) (vmax {}) (inertia {}) (wrap {}) (cond {}) (pre {}) (con {}) (ine {}) (upd {}))",
+                c.1, c.2, a.seed * 100 + 90 + s + 10 * k as u64, fx(START_W[v]), fx(END_W[v]), fx(C1[v]), fx(C2[v]), fx(VMAX[v]), c.3, c.4, c.0, c.5, c.6, c.7, c.8);
+            let sx = Sx::parse(&input).unwrap();
+            let (_, args) = sx.head().unwrap();
+            let (output, vel_cases) = run_custom_n(args, true, true);
+            let unscoped = ["pre", "con", "ine", "upd"].iter().any(|t| field(args, t).iter().any(|k| !matches!(k.head().map(|h| h.0), Some("scope") | Some("nop") | Some("sat"))));
+            out.case(if unscoped { "runn-unscoped" } else { "runn" }, &input, &output);
+            for (vi, vo) in vel_cases {
+                out.case("runn-vel", &vi, &vo);
             }
         }
     }
